@@ -54,7 +54,16 @@ pub(crate) fn parse_allowed_timezone_formats(s: &str) -> Option<TimeZone> {
         match offset {
             UtcOffsetRecordOrZ::Z => return Some(TimeZone::default()),
             UtcOffsetRecordOrZ::Offset(offset) => {
-                return Some(TimeZone::UtcOffset(UtcOffset::from_ixdtf_record(offset)))
+                // A time zone offset has minute precision: seconds cannot be dropped silently.
+                let sub_minute = offset.second != 0
+                    || offset
+                        .fraction
+                        .and_then(|fraction| fraction.to_nanoseconds())
+                        .is_some_and(|ns| ns != 0);
+                if sub_minute {
+                    return None;
+                }
+                return Some(TimeZone::UtcOffset(UtcOffset::from_ixdtf_record(offset)));
             }
         }
     }
